@@ -163,8 +163,14 @@ class Obs:
             raise precip.StepLimit()
 
 
-def execute(cfg, conds):
+def execute(cfg, conds, prior=None):
     m, therm, c = precip.build_model(cfg)
+    if prior:
+        # an earlier condition set of this model, registered and cleared again through the public API (what TTPCalculator does on
+        # construction): the run that follows must not remember it
+        for cd in prior:
+            m.addStoppingCondition(make_condition(cd), cd['mode'])
+        m.clearStoppingConditions()
     objs = [make_condition(cd) for cd in conds]
     for o, cd in zip(objs, conds):
         m.addStoppingCondition(o, cd['mode'])
@@ -205,12 +211,14 @@ def _same_time(a, b):
     return bool(np.isfinite(a) and np.isfinite(b) and abs(a - b) <= 1e-12 * max(abs(a), abs(b)))
 
 
-def check_run(cfg, conds, free, bad, tag):
+def check_run(cfg, conds, free, bad, tag, prior=None):
     """Run cfg with the condition set and evaluate every oracle.  Returns (states, label)."""
     # signature of a wrong stop row: quantity and mode for a single condition, the mode assignment for a set (members in the message)
     stop_sig = ('C19/wrong-stop-step/q=%s/mode=%s' % (conds[0]['q'], conds[0]['mode']) if len(conds) == 1
                 else 'C19/wrong-stop-step/modes=%s' % '+'.join(c['mode'] for c in conds))
-    r = execute(cfg, conds)
+    if prior:
+        stop_sig += '/after-clear-of-%s' % '+'.join(c['mode'] for c in prior)
+    r = execute(cfg, conds, prior)
     d = r['model'].pData
     names, elements = r['names'], r['elements']
     err = r['error']
@@ -394,6 +402,16 @@ def run_set(case):
         states += n
         runs += 1
         labels.add('%s:%s' % ('+'.join(modes), lab))
+    # the same model after an earlier condition set was registered and cleared (first and last mode assignment)
+    for modes in ((MODES2 if len(members) == 2 else MODES3)[0], (MODES2 if len(members) == 2 else MODES3)[-1]):
+        conds = [dict(mb, mode=md) for mb, md in zip(members, modes)]
+        for pm in ('and', 'or'):
+            prior = [dict(members[-1], mode=pm)]
+            tag = '%s conditions %s after clearStoppingConditions() of %s' % (_describe(cfg), ' , '.join(_cstr(c) for c in conds), _cstr(prior[0]))
+            n, lab = check_run(cfg, conds, fr['model'], bad, tag, prior=prior)
+            states += n
+            runs += 1
+            labels.add('%s:after-clear-%s:%s' % ('+'.join(modes), pm, lab))
     return {'viol': bad.v, 'states': states, 'transitions': states, 'traces': runs, 'evaluations': runs,
             'steplimit': any(x.endswith('steplimit') for x in labels),
             'outcome': '%s/%s' % ('+'.join(mb['cls'] for mb in members), ','.join(sorted(labels))), 'nontrivial_count': len(labels),
